@@ -1,5 +1,5 @@
 """C19 - opening arbitrary bytes fails only with ELFError; header enumeration terminates."""
-from symx.api import H
+from symx.api import H, ReadBudgetExceeded
 from spec import enc
 from spec import elf_layout as L
 from harness.elfkit import Image
@@ -136,12 +136,15 @@ def _battery(ctx, elf):
 
 class _Count:
     """read counter around a stream (concrete replay)"""
-    def __init__(self, st):
+    def __init__(self, st, budget=None):
         self._st = st
         self.reads = 0
+        self.read_budget = budget
 
     def read(self, *a):
         self.reads += 1
+        if self.read_budget is not None and self.reads > self.read_budget:
+            raise ReadBudgetExceeded(self.reads)
         return self._st.read(*a)
 
     def __getattr__(self, n):
@@ -170,13 +173,21 @@ def h_battery(ctx):
         data = data[:trunc]
     st = ctx.stream(data) if ctx.symbolic else _Count(ctx.stream(data))
     budget = 64 * len(data) + 4096
+    # a loop that keeps reading (e.g. at end of file) is cut when it exceeds the budget and reported, instead of running into the
+    # path budget of the engine (which would only be inconclusive)
+    st.read_budget = budget
     try:
-        elf = EF.ELFFile(st)
-    except EXC.ELFError:
-        ctx.outcome('ctor-ELFError')
-        ctx.check('battery/ctor-raises-only-ELFError', True)
+        try:
+            elf = EF.ELFFile(st)
+        except EXC.ELFError:
+            ctx.outcome('ctor-ELFError')
+            ctx.check('battery/ctor-raises-only-ELFError', True)
+            return
+        steps = _battery(ctx, elf)
+    except ReadBudgetExceeded:
+        ctx.outcome('read-budget-exceeded')
+        ctx.check('battery/reads-bounded-by-file-size', False)
         return
-    steps = _battery(ctx, elf)
     ctx.outcome('terminated')
     ctx.check('battery/reads-bounded-by-file-size', st.reads <= budget)
 
